@@ -448,12 +448,12 @@ func init() {
 
 var c02Passwords = []string{"", "a", "password", "Passw0rd!", "PASSWORD", "Admin123!", "pässwörd", "пароль", "密码パスワード", "p\U0001F511w",
 	"correct horse battery staple", "\xff\xfe", "ǆemal", "AbCdEfGhIjKlMnOpQrStUvWxYz0123456789"}
-var c02Users = []string{"", "alice", "Alice", "ALICE", "Podalirius", "administrator", "svc_sql$", "jürgen", "ЮЗЕР", "用户", "ǆon", "straße", "user:name", "ıı"}
-var c02Domains = []string{"", "CORP", "corp", "Corp", "corp.example.com", "LAB", "lab.local", "Ünï", "домен", "ДОМЕН", "東京", "ǆ", "ß", "d:m", "WORKGROUP"}
+var c02Users = []string{"", "alice", "Alice", "ALICE", "Podalirius", "administrator", "svc_sql$", "jürgen", "ЮЗЕР", "用户", "ǆon", "straße", "user:name", "ıı", "svc_100%sql", "50%", "u%%d%v"}
+var c02Domains = []string{"", "CORP", "corp", "Corp", "corp.example.com", "LAB", "lab.local", "Ünï", "домен", "ДОМЕН", "東京", "ǆ", "ß", "d:m", "WORKGROUP", "R%D", "%x%s"}
 
 func c02Pick(r *Rng, pool []string) string {
 	if r.Intn(6) == 0 {
-		alpha := []rune("abcXYZ019-._$ éÉßдД東ǆ\U0001F600")
+		alpha := []rune("abcXYZ019-._$% éÉßдД東ǆ\U0001F600")
 		n := r.Intn(16)
 		s := make([]rune, n)
 		for i := range s {
